@@ -875,14 +875,40 @@ def interpret(text):
     names = [n for n, _ in recs]
     if names.count('PROBLEM') > 1:
         raise Unsupported('multiple $PROBLEM')
-    for bad in ('MIX', 'AES', 'AESINITIAL', 'INFN', 'PRIOR', 'ABBREVIATED', 'INCLUDE', 'SIZES'):
+    for bad in ('MIX', 'AES', 'AESINITIAL', 'INFN', 'PRIOR', 'INCLUDE', 'SIZES'):
         if bad in names and bad != 'SIZES':
             raise Unsupported(f'${bad}')
+    # $ABBREVIATED: `REPLACE name=ETA(n)` (also THETA / EPS / ERR) is a textual replacement of `name` in the abbreviated
+    # code; DERIV1 / DERIV2 / COMRES / COMSAV / CHECKMU / (NO)FASTDER do not change the model function.  Anything else
+    # (selectors, REPLACE with ranges, FUNCTION, VECTOR) is outside the supported subset.
+    replace_rules = []
+    for n, b in recs:
+        if n != 'ABBREVIATED':
+            continue
+        for line in b.splitlines():
+            toks = strip_comment(line).split()
+            i = 0
+            while i < len(toks):
+                t = toks[i].upper()
+                if t == 'REPLACE' and i + 1 < len(toks):
+                    m = re.fullmatch(r'(\w+)=((?:THETA|ETA|EPS|ERR)\(\d+\))', toks[i + 1], re.I)
+                    if not m:
+                        raise Unsupported('$ABBREVIATED REPLACE form')
+                    replace_rules.append((m.group(1), m.group(2).upper()))
+                    i += 2
+                elif re.fullmatch(r'(DERIV1|DERIV2|COMRES|COMSAV|CHECKMU)(=\S+)?|NOFASTDER|FASTDER', t):
+                    i += 1
+                else:
+                    raise Unsupported(f'$ABBREVIATED {toks[i]}')
     ref = RefModel()
     ref.records = recs
 
     def body(name):
-        return '\n'.join(b for n, b in recs if n == name)
+        text_ = '\n'.join(b for n, b in recs if n == name)
+        if name in ('PRED', 'PK', 'ERROR', 'DES'):
+            for old, new in replace_rules:
+                text_ = re.sub(r'(?<![\w.])' + re.escape(old) + r'(?![\w(])', new, text_, flags=re.I)
+        return text_
     ref.thetas = []
     for n, b in recs:
         if n == 'THETA':
